@@ -15,6 +15,7 @@ import math
 
 import os as _os
 _TOPS = set() if _os.environ.get("MAHF_SA_TOPS") else None
+CURRENT = [None]     # the interpreter whose oracle is being consulted right now (shared with collmodel)
 BOXLIKE = ("alloc::boxed::Box", "core::ptr::unique::Unique", "core::ptr::non_null::NonNull")
 
 
@@ -1015,7 +1016,12 @@ class Interp:
                             self.write_place(e2, t["dest"], ret)
                             stack.append((t["target"], e2, p2, dict(visits), dict(ms)))
                         break
-                    res = self.oracle(self, env, f, args, t, bb, path) if self.oracle else TOP
+                    prev_cur_ = CURRENT[0]
+                    CURRENT[0] = self        # (lazy adapters forced inside a rule's own oracle run on THIS interpreter's state)
+                    try:
+                        res = self.oracle(self, env, f, args, t, bb, path) if self.oracle else TOP
+                    finally:
+                        CURRENT[0] = prev_cur_
                     if _TOPS is not None and res is TOP and t["target"] is not None:
                         kk = (getattr(getattr(self.body, "fn", None), "key", "?"), ckey)
                         if kk not in _TOPS:
@@ -1082,6 +1088,35 @@ def ok(v):
 
 def err(v):
     return Agg("adt", "core::result::Result", "Err", [v])
+
+
+def _default_of(interp, ty):
+    """T::default() for the types the rules meet: primitives, Option, PhantomData, Vec, and crate types through their own
+    Default implementation (evaluated)"""
+    ty = ty or ""
+    if ty in ("usize", "u8", "u16", "u32", "u64", "u128", "isize", "i8", "i16", "i32", "i64", "i128"):
+        return 0
+    if ty in ("f64", "f32"):
+        return 0.0
+    if ty == "bool":
+        return False
+    if ty.startswith("core::option::Option<"):
+        return NONE
+    if ty.startswith("core::marker::PhantomData<"):
+        return Agg("adt", "core::marker::PhantomData", "PhantomData", [])
+    if ty.startswith("alloc::vec::Vec<"):
+        try:
+            from collmodel import new_vec
+            return new_vec(interp, [])
+        except Exception:
+            return TOP
+    if ty.startswith("mahf::") and interp.facts is not None:
+        fn_ = interp.facts.fn_opt("<%s as core::default::Default>::default" % ty.split("<")[0])
+        if fn_ is not None:
+            outs_ = interp.call_body(fn_, [])
+            if outs_ and len(outs_) == 1 and outs_[0][2] == "return":
+                return outs_[0][0]
+    return TOP
 
 
 def std_oracle(interp, env, f, args, t, bb, path):
@@ -1264,7 +1299,26 @@ def std_oracle(interp, env, f, args, t, bb, path):
                 if not href_set(interp, env, a0, new_v):
                     return TOP
             return old
+        if key == "core::mem::take":
+            # take(place) = replace(place, T::default())
+            dv = _default_of(interp, (f.get("gargs") or [""])[0])
+            if dv is TOP or isinstance(old, Sym) or hasattr(old, "vid"):
+                return TOP
+            if isinstance(a0, Ref):
+                interp.write_ref(env, a0, dv)
+            elif not href_set(interp, env, a0, dv):
+                return TOP
+            return old
         return TOP
+    if key in ("core::mem::replace",) and len(args) == 2 and isinstance(a0, (Ref, HRef)):
+        old = deref(a0)
+        if isinstance(old, Sym) or hasattr(old, "vid") or old is TOP:
+            return TOP      # (handles and opaque symbols: left to the collection model / the rule)
+        if isinstance(a0, Ref):
+            interp.write_ref(env, a0, args[1])
+        elif not href_set(interp, env, a0, args[1]):
+            return TOP
+        return old
     if key in ("core::option::Option::as_ref", "core::option::Option::as_mut", "core::option::Option::as_deref", "core::option::Option::as_deref_mut"):
         v = deref(a0)
         if key.endswith(("as_ref", "as_mut")) and isinstance(a0, (Ref, HRef)) and isinstance(v, Agg) and v.name == "core::option::Option" and v.variant == "Some" \
